@@ -168,6 +168,14 @@ def _info(pf):
     return {"info": i, "str_rows_row_groups": str(pf).split("'rows'")[-1]}
 
 
+def _merge_input(pf, a):
+    import fastparquet
+    other = pickle.loads(pickle.dumps(pf))       # a second, independent handle of the same dataset
+    ins = [pf, other] if (a or {}).get("two", True) else [pf]
+    m = fastparquet.ParquetFile(ins)
+    return {"row_groups": len(m.row_groups), "rows": int(m.count()), "columns": list(m.columns)}
+
+
 def _spc(pf, a):
     from fastparquet.api import sorted_partitioned_columns
     out = sorted_partitioned_columns(pf, filters=[tuple(f) for f in a["filters"]] if a and a.get("filters") else None)
@@ -201,6 +209,9 @@ OBSERVERS = {
     "iter": lambda pf, a: [frame_obs(df)["rows"] for df in pf.iter_row_groups(**_read_kw(a))],
     "sorted_partitioned_columns": lambda pf, a: _spc(pf, a),
     "count_filtered": lambda pf, a: int(pf.count(filters=[tuple(f) for f in a["filters"]])),
+    # the handle used as INPUT of ParquetFile([...]) (what fastparquet.writer.merge does): an observer-like use - the inputs
+    # must come out untouched; the answer is what the combined handle reports
+    "as_merge_input": lambda pf, a: _merge_input(pf, a),
     "pickled_twin": lambda pf, a: (lambda t: {"len": len(t), "rows": [int(rg.num_rows) for rg in t.row_groups], "count": int(t.count())})(pickle.loads(pickle.dumps(pf))),
 }
 # observers that read attribute `a` of the inventory first (used to aim programs at an offending (operation, attribute) pair)
@@ -290,7 +301,9 @@ def gen_program(rng, ds, nsteps=None, aim=None):
         if op not in ("pickle", "copy", "deepcopy") and "getitem" not in op and "#" not in op and "!" not in op:
             # an OBSERVER that mutates the cached object `attr`: read it, run the filter-taking observers, read it again
             base_obs = [["obs", 0, o, ({"n": 3} if o == "head" else None)] for o in ("statistics", "row_group_rows", "count", "info", "to_pandas", "cats")]
-            prog = base_obs + filtered_observers(rng, 0, total) + base_obs + [["obs", 0, "pickled_twin", None], ["obs", 0, "len", None]]
+            prog = base_obs + filtered_observers(rng, 0, total) + [["obs", 0, "as_merge_input", {"two": True}], ["obs", 0, "as_merge_input", {"two": False}]] \
+                + base_obs + [["obs", 0, "pickled_twin", None], ["obs", 0, "len", None], ["derive", 0, "slice", [None, None, None]], ["obs", 1, "to_pandas", None],
+                              ["derive", 0, "pickle", None], ["obs", 2, "to_pandas", None], ["derive", 0, "pick", 0], ["obs", 3, "head", {"n": 2}]]
             return prog
         if "getitem" in op:
             clean = [j for j in range(nrg) if j not in ds["nullrgs"]]
@@ -320,7 +333,15 @@ def gen_program(rng, ds, nsteps=None, aim=None):
     for _ in range(nsteps):
         r = rng.random()
         h = rng.randrange(nh)
-        if r < 0.08:
+        if r < 0.05:
+            prog.append(["obs", h, "as_merge_input", {"two": rng.random() < 0.7}])
+            # ... and everything derived from the input handle afterwards must still work
+            prog.append(["derive", h, rng.choice(["pickle", "copy", "deepcopy", "slice"]), None])
+            if prog[-1][2] == "slice":
+                prog[-1][3] = [None, None, None]
+            nh += 1
+            prog.append(["obs", nh - 1, "to_pandas", None])
+        elif r < 0.10:
             fo = filtered_observers(rng, h, total)
             prog += rng.sample(fo, 2)
         elif r < 0.55:
